@@ -44,6 +44,8 @@ def M(cmd, obj="", run="", a="", **kw):
         kwargs["defer"] = a == "T"
     elif cmd == "sleep":
         args = [1]
+    elif cmd == "configure":
+        args = [{}]
     if cmd == "set":
         args = [kw.get("value", 1)]
     if args:
@@ -82,7 +84,19 @@ PROGRAMS = {
     "err": {"msgs": [M("open_run"), M("checkpoint"), M("null"), M("null"), M("close_run", a="fail"), M("null")],
             "kind": "finally", "try": [2, 4], "cleanup": [5, 5], "raise_at": 4},
     "openonly": {"msgs": [M("open_run"), M("checkpoint"), M("sleep"), M("null")]},
+    # bundle / descriptor / run-key behaviour (monitored; commands beyond RE.tla's vocabulary are not conformance-checked)
+    "collide": {"msgs": [M("open_run"), M("checkpoint"), M("create", a="primary"), M("read", "det"), M("read", "det"), M("save"), M("close_run")]},
+    "emptysave": {"msgs": [M("open_run"), M("checkpoint"), M("create", a="primary"), M("save"), M("create", a="primary"), M("read", "det"), M("drop"),
+                           M("create", a="primary"), M("read", "det"), M("read", "motor"), M("save"), M("checkpoint"),
+                           M("create", a="baseline"), M("read", "det2"), M("save"), M("close_run")]},
+    "ckptinb": {"msgs": [M("open_run"), M("checkpoint"), M("create", a="primary"), M("read", "det"), M("checkpoint"), M("save"), M("close_run")]},
+    "dupopen": {"msgs": [M("open_run", run="k1"), M("checkpoint"), M("open_run", run="k1"), M("close_run", run="k1")]},
+    "cfg": {"msgs": [M("open_run"), M("checkpoint"), M("create", a="primary"), M("read", "det"), M("save"), M("configure", "det"),
+                     M("checkpoint"), M("create", a="primary"), M("read", "det"), M("save"), M("create", a="baseline"), M("read", "det2"), M("save"),
+                     M("configure", "det2"), M("create", a="baseline"), M("read", "det2"), M("save"), M("close_run")]},
+    "cfginb": {"msgs": [M("open_run"), M("checkpoint"), M("create", a="primary"), M("read", "det"), M("configure", "det"), M("save"), M("close_run")]},
 }
+NOT_CONFORMANCE = {"cfg", "cfginb"}        # use commands RE.tla does not model (yet): monitored only
 
 BUILTINS = {
     "count": {"builtin": "count", "args": {"dets": ["det"], "num": 2}},
@@ -396,6 +410,10 @@ def corpus_spec(tier):
     return sweeps
 
 
+def quick_tier(tier):
+    return tier == "quick"
+
+
 def build_corpus(tier):
     t0 = time.time()
     scs = []
@@ -408,12 +426,34 @@ def build_corpus(tier):
         scs += pair_scenarios()
     scs += fault_scenarios(tier)
     scs += monitor_scenarios(tier)
+    for pn, lst in sweep(["collide", "emptysave", "ckptinb", "dupopen", "cfg", "cfginb"], ["pause", "suspend"] if quick_tier(tier) else ["pause", "suspend", "abort", "defer"],
+                         ["resume"], record_intr=True):
+        if isinstance(lst, dict):
+            raise RuntimeError(f"baseline of {pn} failed: {lst['error']}")
+        scs += lst
     res = run_scenarios(scs)
     errs = [r for r in res if r["error"]]
     if errs:
         raise RuntimeError(f"{len(errs)} scenarios failed in the harness, e.g. {errs[0]['id']}: {errs[0]['error']}")
-    return {"traces": [{"id": r["id"], "events": r["events"], "outcomes": r["outcomes"], "final": r["final"]} for r in res],
-            "wall": time.time() - t0}
+    # C03: the data recorded by the uninterrupted execution of each plan is prepended (as `exp` events) to every
+    # execution of the same plan / devices, so that the monitor can compare what an interrupted execution recorded
+    base = {}
+    for r in res:
+        if "|" not in r["id"] or r["id"].endswith("|slow") or "|fault:" in r["id"] and r["id"].count("|") == 1:
+            base[r["id"]] = [["exp", e[1], e[2], "", "", e[5], e[6]] for e in r["events"]
+                             if e[0] == "dat" and e[1] not in ("interruptions", "mon1")]
+            rets = [e for e in r["events"] if e[0] == "ret"]
+            if rets:
+                base[r["id"]].append(["exp", "#outcome", rets[-1][2], "", "", 0, 0])
+    out = []
+    for r in res:
+        key = r["id"]
+        while key not in base and "|" in key:
+            key = key.rsplit("|", 1)[0]
+        exp = base.get(key, []) if "|nori" not in r["id"] else base.get(key, [])
+        out.append({"id": r["id"], "events": exp + r["events"], "outcomes": r["outcomes"], "final": r["final"],
+                    "conf": r["id"].split("|")[0] not in NOT_CONFORMANCE})
+    return {"traces": out, "wall": time.time() - t0}
 
 
 def pair_scenarios():
@@ -493,7 +533,7 @@ def get_monitor(tier):
 def get_validation(tier, proj):
     def build():
         c = get_corpus(tier)
-        traces = [t["events"] for t in c["traces"]]
+        traces = [t["events"] if t.get("conf", True) else [] for t in c["traces"]]
         d = OUT / "corpus" / f"val-{tier}-{proj}"
         d.mkdir(parents=True, exist_ok=True)
         rejected, pv, stats, projected = validate_many(traces, proj, d, f"v{proj}")
@@ -624,7 +664,9 @@ def check_property(ctx, prop, proj="full", extra_rule=""):
     seen_classes = set()
     for i, t in enumerate(traces):
         ctx.case(t["id"], "|" in t["id"])
-    ctx.traces(len(traces) - len(rejected))
+    nconf = sum(1 for t in traces if t.get("conf", True))
+    ctx.traces(nconf - len(rejected))
+    ctx.cov["traces_monitored_only"] = len(traces) - nconf
     ctx.cov["traces_not_conforming_to_spec"] = len(rejected)
     if rejected:
         ex = []
